@@ -348,6 +348,10 @@ func (q *checker) tcheckAssign(n *a.Assign) error {
 	}
 	lhs := n.LHS()
 	if lhs == nil {
+		if (rhs.Operator() == 0) && (rhs.Ident() == t.IDArgs) {
+			// A bare "args" (as opposed to "args.foo") has no value.
+			return fmt.Errorf("check: expression statement %q is not a value", rhs.Str(q.tm))
+		}
 		return nil
 	}
 	if err := q.tcheckExpr(lhs, 0); err != nil {
